@@ -7,6 +7,7 @@
 -/
 import Proofs.C09_Lemmas
 import Proofs.C09_Units
+import Proofs.C09_Literal
 import Atomman.Generated.UnitTable
 import Atomman.Generated.LammpsStyle
 import Mathlib.Tactic.Ring
@@ -469,7 +470,48 @@ theorem reset_named_units_parse_one (toInt? : K → Option Int) (tab : List Unit
   obtain ⟨sc, h1, h2, h3⟩ := reset_named_units_are_one tab htab ch hcount hover hch r hr
   exact ⟨sc, h1, h2, fun k n hk hv => by rw [parse_name _ _ n hv]; exact h3 k n hk⟩
 
+/-- more than four keywords are refused (`ValueError('Only four working units can be defined')`). -/
+theorem reset_refuses_five (si : List Char → Option K) (ch : Choice) (r : K) (h : 4 < ch.count) :
+    resetScales si ch r = none := by
+  simp [resetScales, h]
+
+/-- the over-determined choice (length, mass, time and energy all named): the energy keyword is looked up but
+    otherwise ignored — the scalings are those of the choice without it.  (This is why the property quantifies
+    over non-over-determined choices: the named energy unit is then in general not 1.) -/
+theorem reset_over_determined_ignores_energy (si : List Char → Option K) (ch : Choice) (r : K)
+    (hcount : ch.count ≤ 4) (hover : ch.overDetermined = true)
+    (hj : (baseScale si ['J'] ch.energy).isSome = true) :
+    resetScales si ch r = resetScales si { ch with energy := none } r := by
+  obtain ⟨l, m, t, e, q⟩ := ch
+  simp only [Choice.overDetermined, Bool.and_eq_true, Option.isSome_iff_exists] at hover
+  obtain ⟨⟨⟨⟨l, rfl⟩, ⟨m, rfl⟩⟩, ⟨t, rfl⟩⟩, ⟨e, rfl⟩⟩ := hover
+  have hq : q = none := by
+    cases q with
+    | none => rfl
+    | some q => simp [Choice.count] at hcount
+  subst hq
+  obtain ⟨j, hj⟩ := Option.isSome_iff_exists.mp hj
+  simp only [resetScales, Choice.count, hj]
+  simp
+
 end reset
+
+/-! ### set_literal -/
+
+/-- **set_literal**: "numeral, space, unit expression" (blanks allowed inside and around the unit expression, the
+    splitting from the right included) is the numeral's value times the parsed factor of the unit expression. -/
+theorem set_literal_value_unit (alg : Alg K) (env : List Char → Option K) (v u : List Char) (me : Int × Int) (f : K)
+    (hv : numLit v = some me) (hu : strip u ≠ [])
+    (hf : parseUnits alg env (some (strip u)) = some f) :
+    setLiteral alg env (v ++ ' ' :: u) = some (litVal me.1 me.2 * f) :=
+  setLiteral_value_unit alg env v u me f hv hu hf
+
+/-- … and with `set_in_units`: `set_literal("v u") = set_in_units(v, u)`. -/
+theorem set_literal_eq_set_in_units (alg : Alg K) (env : List Char → Option K) (v u : List Char) (me : Int × Int) (f : K)
+    (hv : numLit v = some me) (hu : strip u ≠ [])
+    (hf : parseUnits alg env (some (strip u)) = some f) :
+    (setLiteral alg env (v ++ ' ' :: u)).map (fun x => [x]) = some (setInUnits [litVal me.1 me.2] f) := by
+  rw [set_literal_value_unit alg env v u me f hv hu hf]; rfl
 
 /-! ### non-vacuity: the hypotheses of the theorems above are satisfiable on the generated tables -/
 
@@ -529,5 +571,14 @@ example : ∃ sc : Scales Rat, resetScales (envSI (K := Rat) unitTable)
   exact ⟨sc, h1, h3 .energy _ rfl, h3 .length _ rfl, h3 .time _ rfl⟩
 example : radicand (envSI (K := Rat) unitTable) ⟨some "m".toList, some "kg".toList, none, some "J".toList, none⟩
     = some (1 * 1) := by decide +kernel
+
+-- hypotheses of `set_literal_value_unit`: "1.5e3  kg * m " (numeral, unit expression with blanks)
+example : numLit "1.5e3".toList = some (15, 2) := by decide +kernel
+example : strip " kg * m ".toList = "kg * m".toList := by decide +kernel
+example : (parseUnits dimAlg (envDim unitTable) (some "kg * m".toList)).map (·.dim) = some ⟨1, 1, 0, 0, 0⟩ := by
+  decide +kernel
+-- the over-determined choice and the five-keyword choice exist
+example : (⟨some ['m'], some ['k', 'g'], some ['s'], some ['J'], none⟩ : Choice).overDetermined = true := by decide
+example : 4 < (⟨some ['m'], some ['k', 'g'], some ['s'], some ['J'], some ['C']⟩ : Choice).count := by decide
 
 end Atomman.C09
